@@ -982,7 +982,8 @@ class C10(Property):
         p = {('k%d' % i): _real(q) for i, q in enumerate(a['ks'])}
         before = _snap([t, dict(c0), p])
         try:
-            result, _ = extra['unit_aware_solve'](t, c0, p, integrator='scipy', atol=1e-300, rtol=1e-12)
+            atol = 1e-6 * min(sc for sc in scales if sc > 0) * t_si / float(_reg_si(a['reg'], CONC))
+            result, _ = extra['unit_aware_solve'](t, c0, p, integrator='scipy', atol=atol, rtol=1e-12)
         except Exception as e:
             result = None        # the integrator is third party
         if _snap([t, dict(c0), p]) != before:
